@@ -9,6 +9,7 @@ from engine import pat
 from engine.util import where
 
 RULES = {
+    "R-06.8": "the predecessor padding never builds a label above 63 octets: _pad_to_max_name appends 63-octet labels while more than 64 octets are left (each costs 64 on the wire) and a last label of needed-1 <= 63 octets; _pad_to_max_label extends a label by at most 63 - len(label)",
     "R-06.1": "each rich comparison of Name returns fullcompare(other)[1] <op> 0 with the operator its name says; foreign operands give NotImplemented / False / True",
     "R-06.2": "fullcompare folds BOTH labels with the same normaliser, __hash__ folds every octet with it, canonicalize() uses it",
     "R-06.3": "fullcompare: mirrored </> arms, relative-before-absolute, right-to-left scan, length tie-break, relation from the length difference; is_subdomain/is_superdomain accept exactly {SUB|SUPER}DOMAIN and EQUAL",
@@ -349,6 +350,24 @@ def run(model, rep, tier):
                   f"the octet {what} is not monotone under the canonical (case-folded) order for {[(chr(o), chr(r) if 0 <= r < 256 else r) for o, r in bad_o[:6]]}"
                   f"{' ...' if len(bad_o) > 6 else ''}: the {'successor' if delta > 0 else 'predecessor'} of a name whose stepped octet is one of these sorts on the wrong side of the name", stmt="octet-step")
     rep.assume("bytes comparison and bytes.lower() are trusted (ASCII-only folding, total order on octet strings)")
+    # ---------------------------------------------------------------- R-06.8
+    pm = model.func("dns.name._pad_to_max_name")
+    env8 = pat.Env()
+    hit = pat.find(pm.node, "while needed > ___K:\n    __nl.append(___X * ___L)\n    needed -= ___S\nif needed >= ___M:\n    __nl.append(___X * (needed - ___D))", env8)
+    if hit is None:
+        rep.blind("R-06.8", pm.qualname, where(pm, pm.node), "the padding loop `while needed > K: append(octet * L); needed -= S` followed by the tail label was not found", stmt="pad-name")
+    else:
+        try:
+            K, L, S, M, D = (int(model.const(pm.module, ast.parse(env8["___" + k], mode="eval").body)) for k in "KLSMD")
+            okk = L <= 63 and S == L + 1 and K >= S and K - D <= 63 and D == 1 and M >= D + 1
+            rep.check(okk, "R-06.8", pm.qualname, where(pm, hit[0][hit[1]]), f"labels of {L} octets while needed > {K} (each costs {S}); last label needed-{D} <= {K - D}",
+                      f"padding arithmetic: loop `while needed > {K}` appends {L}-octet labels costing {S}, tail appends needed-{D} octets when needed >= {M}: "
+                      f"the tail label can be {K - D} octets long (limit 63) or the accounting is off, so predecessor() raises LabelTooLong / NameTooLong for some origins instead of returning a name", stmt="pad-name")
+        except (AnalysisError, KeyError, ValueError) as e:
+            rep.blind("R-06.8", pm.qualname, where(pm, pm.node), f"padding constants not foldable: {e}", stmt="pad-name")
+    pl = model.func("dns.name._pad_to_max_label")
+    rep.check(pat.has_expr(pl.node, "min(63 - __length, __remaining)") or pat.has_expr(pl.node, "min(__remaining, 63 - __length)"), "R-06.8", pl.qualname, where(pl, pl.node),
+              "a label is extended by min(63 - len(label), room left in the name)", "the label extension is no longer bounded by 63 - len(label) and the room left in the name", stmt="pad-label")
     rep.meta["explanation"] = (
         "Names are touched only through comparisons, a finite structure: the operator table, the single normaliser shared by compare/hash/canonical forms, "
         "the mirrored arms of fullcompare and the relativity guards are read from the AST and compared with RFC 4034 6.1. Totality/transitivity follow from these plus "
@@ -366,6 +385,10 @@ def _blocks(fn):
 
 
 WITNESSES = [
+    {"id": "c06-pad-loop-bound-65", "rule": "R-06.8", "file": "dns/name.py", "expect": "fires",
+     "old": "    while needed > 64:\n        new_labels.append(_MAXIMAL_OCTET * 63)", "new": "    while needed > 65:\n        new_labels.append(_MAXIMAL_OCTET * 63)"},
+    {"id": "c06-twin-pad-loop-ge-65", "rule": "R-06.8", "file": "dns/name.py", "expect": "silent",
+     "old": "    while needed > 64:\n        new_labels.append(_MAXIMAL_OCTET * 63)", "new": "    while 64 < needed:\n        new_labels.append(_MAXIMAL_OCTET * 63)"},
     {"id": "c06-apex-test-on-label-tuples", "rule": "R-06.7", "file": "dns/name.py", "expect": "fires",
      "old": "    if name == origin:\n        return _pad_to_max_name(name)", "new": "    if name.labels == origin.labels:\n        return _pad_to_max_name(name)"},
     {"id": "c06-relativize-negative-zero-slice", "rule": "R-06.6", "file": "dns/name.py", "expect": "fires",
